@@ -54,7 +54,7 @@ def build_project(root, spec):
     for i, d in enumerate(dirs):
         name = dn(d, f"t{i}")
         title = "Same Title" if spec.get("sametitle") else f"Title T{i}"
-        (src / (name + ".md")).write_text(f"(lbl-t{i})=\n# {title} *em*\n\n## Sub\n\ntext\n\n## Sub\n\n(lbl-p{i})=\npara P{i}\n\n### Deep `code`\n")
+        (src / (name + ".md")).write_text(f"(lbl-t{i})=\n# {title} *em*\n\n## Sub\n\ntext\n\n## Sub\n\n(lbl-p{i})=\npara P{i}\n\n### Deep `code`\n\n(Lbl-Cap{i})=\n#### Capital label section\n")
         (src / dn(d, f"f{i}.txt")).write_text("file")
         targets[name] = i
         # a page with the SAME file name in every directory (identical relative spelling from different source pages)
@@ -100,6 +100,9 @@ def build_project(root, spec):
             add(f"[{{M}} *x*](#lbl-t{i})", kind="label-t", target=tname, explicit=True, spelling="hash-label")
             add(f"[{{M}} *x*](#lbl-p{i})", kind="label-p", target=tname, explicit=True, spelling="hash-label")
             add(f"<project:#lbl-t{i}>", kind="label-t", target=tname, explicit=False, spelling="project-label")
+            add(f"[](#Lbl-Cap{i})", kind="label-cap", target=tname, explicit=False, spelling="hash-label-capital")
+            add(f"[{{M}} *x*](Lbl-Cap{i})", kind="label-cap", target=tname, explicit=True, spelling="bare-label-capital")
+            add(f"<project:#Lbl-Cap{i}>", kind="label-cap", target=tname, explicit=False, spelling="project-label-capital")
             frel = posixpath.relpath(dn(td, f"f{i}.txt"), sd or ".")
             add(f"[{{M}} d]({frel})", kind="file", target=dn(td, f"f{i}.txt"), explicit=True, spelling="file-rel")
             add(f"<path:{frel}>", kind="file", target=dn(td, f"f{i}.txt"), explicit=False, spelling="path-auto")
@@ -174,6 +177,7 @@ class ProjectSystem(System):
                     "label-t": [i_ for i_ in secs[0]["ids"] if "lbl" in i_][0],
                     "label-p": [p["ids"][0] for p in dt.findall(nodes.paragraph) if p["ids"]][0],
                     "title": secs[0][0].astext(), "subtitle": "Sub", "deeptitle": secs[3][0].astext(),
+                    "label-cap": [i_ for i_ in secs[4]["ids"] if "lbl-cap" in i_.lower()][0], "captitle": secs[4][0].astext(),
                 }
             app._warning.truncate(0)
             app._warning.seek(0)
@@ -198,7 +202,7 @@ class ProjectSystem(System):
                     bad("link-kept", "the paragraph holding the link disappeared")
                     continue
                 refs = [r for r in p.findall(lambda x: isinstance(x, nodes.reference) or x.tagname == "download_reference")]
-                if kind in ("page", "sub", "sub1", "deep", "label-t", "label-p"):
+                if kind in ("page", "sub", "sub1", "deep", "label-t", "label-p", "label-cap"):
                     tname = L["target"]
                     frag = tid[tname][kind]
                     exp = posixpath.relpath(tname + ".html", sd or ".") + ("#" + frag if frag else "")
@@ -217,7 +221,7 @@ class ProjectSystem(System):
                         if txt != f"{m} x" or not list(refs[0].findall(nodes.emphasis)):
                             bad("text", f"explicit text {txt!r}, written '{m} *x*'", which="explicit")
                     else:
-                        want = {"page": tid[tname]["title"], "sub": "Sub", "sub1": "Sub", "deep": tid[tname]["deeptitle"], "label-t": tid[tname]["title"]}[kind]
+                        want = {"page": tid[tname]["title"], "sub": "Sub", "sub1": "Sub", "deep": tid[tname]["deeptitle"], "label-t": tid[tname]["title"], "label-cap": tid[tname]["captitle"]}[kind]
                         if txt != want:
                             bad("text", f"empty link text filled with {txt!r}, the target's title is {want!r}", which="implicit")
                     if any(x in warns for x in (f"'{tname}'", m)) and "xref_missing" in "".join(w for w in warns.splitlines() if m in w):
